@@ -39,6 +39,7 @@ class Case:
     data: Any  # picklable concrete structure handed to the harness through G.case
     timeout: float = 30.0  # CrossHair per-condition budget (CPU seconds)
     twin: bool = True  # run the reachability twin for this case
+    vacuous_ok: bool = False  # a confirmed twin (no input reaches the obligation) is recorded, not an error
     per_path: Optional[float] = None
 
 
@@ -560,6 +561,10 @@ def run_cases(prop_id: str, module: str, cases: List[Case], tier: str, seed: int
                 # every input of this case lies inside a listed known-finding region: nothing is
                 # left to check here (the case is not counted as non-trivial)
                 t["fully_excluded"] = True
+            elif tst == "confirmed" and c.vacuous_ok:
+                # structurally vacuous combination (e.g. no object of the declared type can take this
+                # branch): nothing to check; the case is not counted as non-trivial
+                t["vacuous"] = True
             elif tst in ("confirmed", "pre_unsat"):
                 out.harness_errors.append(
                     f"{c.template}:{c.label}: reachability twin came back {tst}: the assertion is never reached"
